@@ -296,3 +296,136 @@ func VH_C11_total(caseID int) {
 		}
 	}
 }
+
+// ---------------------------------------------------------------------------
+// the client's struct walker (SetValWithStruct, read-only reflection through the engine's bridge):
+// every exported field of the supported kinds is emitted under its tag name as canonical text.
+
+type vC11Struct struct {
+	A      uint8    `param:"a" header:"a" cookie:"a" form:"a"`
+	B      int8     `param:"b" header:"b" cookie:"b" form:"b"`
+	U      uint64   `param:"u" header:"u" cookie:"u" form:"u"`
+	I      int64    `param:"i" header:"i" cookie:"i" form:"i"`
+	S      string   `param:"s" header:"s" cookie:"s" form:"s"`
+	L      []string `param:"l" header:"l" cookie:"l" form:"l"`
+	N      []uint8  `param:"n" header:"n" cookie:"n" form:"n"`
+	F      bool     `param:"f" header:"f" cookie:"f" form:"f"`
+	hidden uint8
+	NoTag  uint8
+}
+
+// vParseDec: the decimal value of a canonical numeral (no sign, no leading zero unless "0").
+func vParseDec(s string) (uint64, bool) {
+	if len(s) == 0 || (len(s) > 1 && s[0] == '0') {
+		return 0, false
+	}
+	var n uint64
+	for i := 0; i < len(s); i++ {
+		if s[i] < '0' || s[i] > '9' {
+			return 0, false
+		}
+		n = n*10 + uint64(s[i]-'0')
+	}
+	return n, true
+}
+
+// VH_C11_walker: case = focus*4 + source (source 0 query params, 3 form, 2 cookies - which keep one
+// value per name). focus: which numeric field is symbolic (the decimal formatter is case-split per
+// value by the engine): 0 uint8 field, 1 int8 field, 2 uint8 slice element, 3 64-bit extremes.
+func VH_C11_walker(caseID int) {
+	src := caseID % 4
+	focus := caseID / 4
+	var umenu = []uint64{0, 9, 1 << 32, 1<<63 - 1, 1 << 63, 1<<64 - 1}
+	var utext = []string{"0", "9", "4294967296", "9223372036854775807", "9223372036854775808", "18446744073709551615"}
+	var imenu = []int64{0, -1, 1<<63 - 1, -1 << 63}
+	var itext = []string{"0", "-1", "9223372036854775807", "-9223372036854775808"}
+	ui, ii := 1, 1
+	v := vC11Struct{A: 17, B: -5, F: vBool("F"), hidden: 7, NoTag: 3}
+	n0 := uint8(42)
+	switch focus {
+	case 0:
+		v.A = vByte("A")
+		vAssume(vOr(v.A <= 40, v.A >= 216))
+	case 1:
+		b := vByte("B")
+		vAssume(vOr(b <= 30, b >= 226))
+		v.B = int8(b)
+	case 2:
+		n0 = vByte("N0")
+		vAssume(vOr(n0 <= 40, n0 >= 216))
+	case 3:
+		ui = vChoice("u", len(umenu))
+		ii = vChoice("i", len(imenu))
+	}
+	v.U, v.I = umenu[ui], imenu[ii]
+	v.S = vC11Val("S", 3, 2, false)
+	v.L = []string{vC11Val("L0", 3, 1, false), vC11Val("L1", 3, 1, false)}
+	v.N = []uint8{n0, 200}
+	req := AcquireRequest()
+	var get func(string) []string
+	switch src {
+	case 0:
+		req.SetParamsWithStruct(v)
+		get = req.Param
+	case 2:
+		req.SetCookiesWithStruct(&v)
+		get = func(k string) []string {
+			if c := req.Cookie(k); c != "" {
+				return []string{c}
+			}
+			return nil
+		}
+	case 3:
+		req.SetFormDataWithStruct(&v)
+		get = req.FormData
+	}
+	one := func(k string) string {
+		l := get(k)
+		vAssert(len(l) == 1, "one-value-for-"+k)
+		if len(l) == 1 {
+			return l[0]
+		}
+		return ""
+	}
+	a, aok := vParseDec(one("a"))
+	vAssert(aok && a == uint64(v.A), "uint8-canonical-decimal")
+	bt := one("b")
+	if v.B < 0 {
+		vAssert(len(bt) > 1 && bt[0] == '-', "negative-sign")
+		if len(bt) > 1 {
+			m, ok := vParseDec(bt[1:])
+			vAssert(ok && m == uint64(-int64(v.B)), "int8-canonical-decimal")
+		}
+	} else {
+		m, ok := vParseDec(bt)
+		vAssert(ok && m == uint64(v.B), "int8-canonical-decimal")
+	}
+	vAssert(one("u") == utext[ui], "uint64-extremes")
+	vAssert(one("i") == itext[ii], "int64-extremes")
+	if src != 2 || v.S != "" {
+		vAssert(one("s") == v.S, "string-verbatim")
+	}
+	if v.F {
+		vAssert(one("f") == "true", "bool-true")
+	} else {
+		vAssert(one("f") == "false", "bool-false")
+	}
+	if src != 2 {
+		l := get("l")
+		vAssert(len(l) == 2, "string-slice-length")
+		if len(l) == 2 {
+			vAssert(l[0] == v.L[0] && l[1] == v.L[1], "string-slice-elements")
+		}
+		n := get("n")
+		vAssert(len(n) == 2, "uint8-slice-length")
+		if len(n) == 2 {
+			n0, ok := vParseDec(n[0])
+			vAssert(ok && n0 == uint64(v.N[0]), "uint8-slice-element")
+			vAssert(n[1] == "200", "uint8-slice-element-1")
+		}
+	}
+	vAssert(len(get("hidden")) == 0, "unexported-field-not-sent")
+	nt, ntok := vParseDec(one("NoTag"))
+	vAssert(ntok && nt == 3, "untagged-field-under-its-name")
+	vReach("walked")
+}
